@@ -17,6 +17,7 @@ import faulthandler
 import gc
 import hashlib
 import importlib
+import inspect
 import json
 import multiprocessing
 import os
@@ -101,6 +102,12 @@ def _alarm(signum, frame):
 
 def _unraisable(u):
     # exceptions escaping from finalisers (__del__) end up here
+    if isinstance(u.exc_value, devices.SimCloseFault) and \
+            inspect.isgenerator(u.object):
+        # the simulated source's own complaint, raised when the interpreter
+        # finalises the generator: not the code under test's
+        devices.CTX.fire('source-close-fault')
+        return
     devices.CTX.unraisable.append(
         '%s: %s in %r' % (type(u.exc_value).__name__, u.exc_value, u.object))
 
